@@ -18,7 +18,7 @@ RULE = ("ordered sub-lists (<=2 quick / <=3 thorough) of a 10-estimate and an 8-
         "across the critical region (unknown estimate, FP-labelled and non-target ground truth, contested ground truth) x "
         "3 label policies x ego frame and map-frame renderings (ego-pose menu) x critical filters {x/y box, per-label box, "
         "distance ring} x pass/fail thresholds {0.5, 2.0, per-label}; seams: PerceptionFrameResult.evaluate_frame on hand-built "
-        "frames and PerceptionEvaluationManager.add_frame_result (wide and narrow manager filter), plus two consecutive frames. "
+        "frames and PerceptionEvaluationManager.add_frame_result (wide and narrow manager filter), plus two consecutive frames, and every scene of a reduced pool under four ego poses in a row in one process (map rendering). "
         "state = (seam, frame kind, policy, critical filter, threshold, per-object status vector); non-trivial = at least one "
         "object removed by the critical filter or a FP/FN/TN present")
 ASSUMPTIONS = [
@@ -72,6 +72,11 @@ def units(tier, seed):
     # whose ego pose has no rotation, so that the transformed coordinates are exact zeros too
     for fr, ego in (("base_link", (0.0, 0.0, 0.0)), ("map", (10.0, -5.0, 0.0)), ("map", (0.0, 0.0, 0.0))):
         u.append(dict(seam="frame", family="origin", frame=fr, ego=list(ego), policy="DEFAULT", kmax=2, chunk=[0, 1], tier=tier))
+    # the ego moves between the frames evaluated in one process: every scene is evaluated under three ego poses in a row (map rendering), each
+    # against its own reference (a map -> ego transform remembered from an earlier frame would judge the critical area around the wrong ego)
+    for pol in S.POLICIES[:2]:
+        u.append(dict(seam="frame", family="ego_sequence", frame="map", ego=list(egos[1]), ego_seq=[list(egos[1]), list(egos[2]), list(egos[3 % len(egos)]), list(egos[1])],
+                      policy=pol, kmax=2, chunk=[0, 1], tier=tier))
     # traffic lights: ROI-less 2D objects that carry a 3-D position in the camera frame; the frame supplies camera -> base_link
     for ci in range(len(CAM_MOUNTS)):
         u.append(dict(seam="lights", cam=ci))
@@ -172,7 +177,7 @@ def run_unit(unit, acc):
         gt = [dict(gt[0], x=0.0, y=0.0), dict(gt[2], x=0.0, y=0.0, pts=0), gt[0], gt[2]]
     if unit.get("family") == "fp_thr":
         est, gt = [est[i] for i in (0, 2, 5, 6, 9)] + [dict(est[9], x=est[9]["x"] + 1.3, uuid="e9b", score=0.31)], [gt[j] for j in (0, 2, 4)] + [dict(gt[4], x=3.2, y=-1.9, uuid="g4b")]
-    if unit.get("family") in ("reversed", "pf_reversed", "res_reversed", "ring_nonuni"):
+    if unit.get("family") in ("reversed", "pf_reversed", "res_reversed", "ring_nonuni", "ego_sequence"):
         est, gt = [est[i] for i in (0, 1, 2, 3, 4, 5, 7)], [gt[j] for j in (0, 1, 2, 3, 4, 7)]
     if unit["seam"] == "manager" and unit["tier"] == "quick":
         est, gt = [est[i] for i in (0, 1, 3, 4, 5, 7)], [gt[j] for j in (0, 1, 3, 4, 7)]
@@ -200,6 +205,12 @@ def run_unit(unit, acc):
             if unit.get("family") == "origin":
                 case["family"] = "origin"
                 case["crits"], case["thrs"] = ["ring", "box_per_label"], ["per_label"]
+            if unit.get("family") == "ego_sequence":
+                case["family"] = "ego_sequence"
+                case["crits"], case["thrs"] = ["box_per_label", "ring"], ["per_label"]
+                for ego_ in unit["ego_seq"]:
+                    check_case(dict(case, ego=ego_), acc)
+                continue
             if unit["seam"] == "manager":
                 case["mgr_filter"] = unit["mgr_filter"]
                 case["crits"] = ["box_per_label", "ring"]
@@ -270,6 +281,8 @@ def _check_frame(case, crit, thr, fr, ests, gts, pre_e, pre_g, acc, label="", pr
     acc.compared()
 
     def bad(sig, msg):
+        if case.get("family") == "ego_sequence":
+            sig += ":ego-sequence"       # depends on the frames evaluated before: reported from a replay of the whole unit
         acc.violation(sig, "%s%s | seam=%s frame=%s policy=%s crit=%s thr=%s est_status=%s gt_status=%s results=%s" % (
             label, msg, case["seam"], case["frame"], case["policy"], crit, thr, ev, gv,
             [(G.index_of(r.estimated_object, ests), None if r.ground_truth_object is None else G.index_of(r.ground_truth_object, gts)) for r in R]), one)
